@@ -88,6 +88,16 @@ SEEDS = {
  'C19-4': dict(f='c19_incentives_pagination.rs', **integ(PN_D + '/incentive_factory', 'incentive-factory', 'c19_incentives_pagination.rs')),
  'C20-3': dict(f='c20_hooks_catch_up.rs', **integ('contracts/liquidity_hub/epoch-manager', 'epoch-manager', 'c20_hooks_catch_up.rs')),
  'C20-4': dict(f='c20_genesis.rs', **integ('contracts/liquidity_hub/fee_distributor', 'fee_distributor', 'c20_genesis.rs')),
+ 'C01-5': dict(f='seeded5_collect_mixed_fees.rs', **integ(PN_D + '/terraswap_pair', 'terraswap-pair', 'seeded5_collect_mixed_fees.rs')),
+ 'C01-6': dict(f='seeded6_provide_after_collect.rs', **integ(PN_D + '/terraswap_pair', 'terraswap-pair', 'seeded6_provide_after_collect.rs')),
+ 'C06-5': dict(f='seeded_c06_5.rs', **integ('contracts/liquidity_hub/vault-network/vault', 'vault', 'seeded_c06_5.rs')),
+ 'C06-6': dict(f='seeded_c06_6.rs', **integ('contracts/liquidity_hub/vault-network/vault', 'vault', 'seeded_c06_6.rs')),
+ 'C08-5': dict(f='seed5_demo.rs', **integ('contracts/liquidity_hub/whale_lair', 'whale-lair', 'seed5_demo.rs')),
+ 'C08-6': dict(f='seed6_demo.rs', **integ('contracts/liquidity_hub/whale_lair', 'whale-lair', 'seed6_demo.rs')),
+ 'C13-5': dict(f='seeded_c13_5.rs', **integ(PN_D + '/incentive', 'incentive', 'seeded_c13_5.rs')),
+ 'C13-6': dict(f='seeded_c13_6.rs', **integ(PN_D + '/incentive', 'incentive', 'seeded_c13_6.rs')),
+ 'C09-5': dict(f='seeded_c09_5.rs', **integ('contracts/liquidity_hub/fee_distributor', 'fee_distributor', 'seeded_c09_5.rs')),
+ 'C09-6': dict(f='seeded_c09_6.rs', **integ('contracts/liquidity_hub/fee_distributor', 'fee_distributor', 'seeded_c09_6.rs')),
 }
 try: SEEDS.update(json.load(open(V + '/seeded/extra_seeds.json')))
 except Exception: pass
@@ -163,7 +173,7 @@ def run(sid, checks):
         m = json.load(open(mp)); m.setdefault('checks', {}).update(res); json.dump(m, open(mp, 'w'), indent=1)
 
 
-EXTRA = {'C17-4': ['C16'], 'C17-3': ['C16'], 'C03-4': ['C14'], 'C14-4': ['C03'], 'C14-3': ['C05'], 'C07-4': ['C06'], 'C15-4': ['C01'], 'C02-3': ['C01'], 'C04-3': ['C07'], 'C04-4': ['C07'], 'C05-3': [], 'C05-4': ['C06'], 'C06-3': [], 'C06-4': ['C05'], 'C07-1': ['C05', 'C06'], 'C07-2': ['C04'], 'C14-2': ['C04'], 'C18-2': ['C04'], 'C16-2': ['C06'], 'C11-1': ['C13'], 'C17-1': ['C18'], 'C01-2': ['C07'], 'C01-1': ['C02'], 'C05-1': ['C06'], 'C05-2': ['C06', 'C07'],
+EXTRA = {'C01-5': ['C07'], 'C06-5': ['C05'], 'C06-6': ['C07'], 'C17-4': ['C16'], 'C17-3': ['C16'], 'C03-4': ['C14'], 'C14-4': ['C03'], 'C14-3': ['C05'], 'C07-4': ['C06'], 'C15-4': ['C01'], 'C02-3': ['C01'], 'C04-3': ['C07'], 'C04-4': ['C07'], 'C05-3': [], 'C05-4': ['C06'], 'C06-3': [], 'C06-4': ['C05'], 'C07-1': ['C05', 'C06'], 'C07-2': ['C04'], 'C14-2': ['C04'], 'C18-2': ['C04'], 'C16-2': ['C06'], 'C11-1': ['C13'], 'C17-1': ['C18'], 'C01-2': ['C07'], 'C01-1': ['C02'], 'C05-1': ['C06'], 'C05-2': ['C06', 'C07'],
          'C06-1': ['C05'], 'C06-2': ['C05'], 'C03-1': ['C14'], 'C15-2': ['C14']}
 
 
